@@ -304,6 +304,24 @@ def real_module(modname):
     return m
 
 
+def _known_module_functions():
+    p = os.path.join(os.path.dirname(os.path.dirname(os.path.abspath(__file__))), "baseline", "module_functions.json")
+    try:
+        import json
+
+        return json.load(open(p))
+    except OSError:
+        return {}
+
+
+def _new_helper_guard(name):
+    def guard(*a, **k):
+        # running it natively would act on the REAL module state (e.g. `node.exec_nodes`), not on the contract's model of it
+        raise Unsupported(f"module-level helper {name}() is new (not in baseline/module_functions.json) and has no contract")
+
+    return guard
+
+
 class FunctionUnderContract:
     """Binds a contract to the real source and produces the obligations.
 
@@ -327,6 +345,13 @@ class FunctionUnderContract:
         specs = dict(getattr(c, "loops", {}) or {})
         self.rewritten, self.nloops = rewrite_function(fn_ast, specs, rename="__f", nested_stubs=tuple(getattr(c, "nested_stubs", ())))
         ns = dict(vars(mod))
+        known = _known_module_functions().get(c.module)
+        if known is not None:
+            import types
+
+            for name_, obj_ in vars(mod).items():
+                if isinstance(obj_, types.FunctionType) and obj_.__module__ == c.module and name_ not in known:
+                    ns[name_] = _new_helper_guard(name_)
         ns.update(_BUILTIN_OVERRIDES)
         ns["logger"] = sym.Inert()
         ns.update(c.namespace() if hasattr(c, "namespace") else {})
